@@ -32,6 +32,7 @@ func doProposal014(instructionSet *JumpTable) {
 
 	instructionSet[STAKE] = &operation{
 		execute:     opStake,
+		writes:      true,
 		constantGas: StakeGas,
 		minStack:    minStack(2, 1),
 		maxStack:    maxStack(2, 1),
@@ -39,6 +40,7 @@ func doProposal014(instructionSet *JumpTable) {
 
 	instructionSet[UNSTAKE] = &operation{
 		execute:     opUnStake,
+		writes:      true,
 		constantGas: UnStakeGas,
 		minStack:    minStack(2, 1),
 		maxStack:    maxStack(2, 1),
@@ -53,6 +55,7 @@ func doProposal014(instructionSet *JumpTable) {
 
 	instructionSet[UNSTAKEALL] = &operation{
 		execute:     opUnStakeAll,
+		writes:      true,
 		constantGas: UnStakeAllGas,
 		minStack:    minStack(1, 1),
 		maxStack:    maxStack(1, 1),
@@ -81,6 +84,7 @@ func doProposal014(instructionSet *JumpTable) {
 		minStack:    minStack(9, 1),
 		maxStack:    maxStack(9, 1),
 		memorySize:  memoryAuthCall,
+		writes:      true,
 	}
 }
 
